@@ -11,7 +11,10 @@ from registry import REGISTRY, GLOBAL_TRUSTED, NOT_CLAIMED, HOOK_COMMITS  # noqa
 
 props = [json.loads(l) for l in open(os.path.join(ROOT, "properties.jsonl"))]
 ids = [p["id"] for p in props]
-claimed = sorted(REGISTRY)
+# only properties the integrator has reviewed and listed in tools/claimed.txt are claimed
+_cl = os.path.join(ROOT, "tools", "claimed.txt")
+_listed = [l.strip() for l in open(_cl) if l.strip() and not l.startswith("#")] if os.path.exists(_cl) else []
+claimed = sorted(c for c in REGISTRY if c in _listed)
 m = {
     "version": 1,
     "setup_cmd": "./setup.sh",
@@ -53,7 +56,7 @@ for c in claimed:
         "technique": cfg["technique"],
     })
 for i in ids:
-    if i not in REGISTRY:
+    if i not in claimed:
         m["not_applicable"].append({"property_id": i, "reason": NOT_CLAIMED.get(i, "not claimed yet: model, theorems and correspondence for this property are not built (plan in DESIGN.md §5); no other technique is substituted")})
 json.dump(m, open(os.path.join(ROOT, "MANIFEST.json"), "w"), indent=1)
 print("claimed:", claimed)
